@@ -141,6 +141,8 @@ impl ExpKey {
 #[derive(Clone, Debug, Serialize, Deserialize, PartialEq, Eq, Hash, PartialOrd, Ord)]
 pub enum M {
     Send(Vec<(u8, Amt)>),
+    /// bank send whose recipient is the proxy's own address (who receives is irrelevant to the grants)
+    SendSelf(Vec<(u8, Amt)>),
     Burn(Vec<(u8, Amt)>),
     Delegate,
     Undelegate,
@@ -173,6 +175,7 @@ impl M {
     pub fn kind(&self) -> &'static str {
         match self {
             M::Send(_) => "bank-send",
+            M::SendSelf(_) => "bank-send-to-proxy",
             M::Burn(_) => "bank-burn",
             M::Delegate => "delegate",
             M::Undelegate => "undelegate",
@@ -232,6 +235,11 @@ pub fn to_cosmos(actors: &[&'static str], m: &M) -> CosmosMsg {
             contract_addr: proxy_addr(),
             msg: cosmwasm_std::to_json_binary(&inner_msg(actors, i)).unwrap(),
             funds: vec![],
+        }
+        .into(),
+        M::SendSelf(v) => BankMsg::Send {
+            to_address: proxy_addr(),
+            amount: coins_of(v),
         }
         .into(),
         M::Send(v) => BankMsg::Send {
@@ -303,10 +311,38 @@ pub fn to_cosmos(actors: &[&'static str], m: &M) -> CosmosMsg {
 pub enum Act {
     UpdateAdmins { by: u8, admins: Vec<u8> },
     Freeze { by: u8 },
-    Inc { by: u8, spender: u8, denom: u8, amt: Amt, exp: ExpA },
-    Dec { by: u8, spender: u8, denom: u8, amt: Amt, exp: ExpA },
-    SetPerm { by: u8, spender: u8, flags: u8 },
-    Exec { by: u8, msgs: Vec<M> },
+    // `funds`: coins attached to the call (MessageInfo.funds), as (denom index, amount)
+    Inc {
+        by: u8,
+        spender: u8,
+        denom: u8,
+        amt: Amt,
+        exp: ExpA,
+        #[serde(default)]
+        funds: Vec<(u8, Amt)>,
+    },
+    Dec {
+        by: u8,
+        spender: u8,
+        denom: u8,
+        amt: Amt,
+        exp: ExpA,
+        #[serde(default)]
+        funds: Vec<(u8, Amt)>,
+    },
+    SetPerm {
+        by: u8,
+        spender: u8,
+        flags: u8,
+        #[serde(default)]
+        funds: Vec<(u8, Amt)>,
+    },
+    Exec {
+        by: u8,
+        msgs: Vec<M>,
+        #[serde(default)]
+        funds: Vec<(u8, Amt)>,
+    },
     /// C16: ask CanExecute, run Execute{[msg]} on a copy of the state, compare; the state is kept
     Probe { sender: u8, msg: M },
     Advance,
@@ -356,6 +392,22 @@ pub struct Cfg {
     pub dispatch: bool,
     /// offer `Migrate` at every state (contracts with a migrate entry point only)
     pub migrate_probe: bool,
+    /// coins attached to Execute calls; non-empty ones only for lists of at most `exec_funded_max_len` messages
+    pub exec_funds: Vec<Vec<(u8, Amt)>>,
+    pub exec_funded_max_len: usize,
+    /// coins attached to IncreaseAllowance / DecreaseAllowance / SetPermissions; anything but `GF::None`
+    /// is only offered to callers that are not current admins
+    pub grant_funds: Vec<GF>,
+}
+
+/// funds attached to a grant call
+#[derive(Clone, Copy, Debug, PartialEq, Eq)]
+pub enum GF {
+    None,
+    /// exactly the coin named in the message
+    Same,
+    /// one coin of the other denomination
+    Other,
 }
 
 impl Cfg {
@@ -386,6 +438,9 @@ impl Cfg {
             monitors: false,
             dispatch: false,
             migrate_probe: false,
+            exec_funds: vec![vec![]],
+            exec_funded_max_len: 1,
+            grant_funds: vec![GF::None],
         }
     }
     pub fn addr(&self, i: u8) -> String {
@@ -530,7 +585,7 @@ pub fn not_covered(kind: Kind, r: &Ref, caller: u8, msgs: &[M], h: u64, t: u64) 
     let flags = r.perms.get(&caller).copied().unwrap_or(0);
     for (i, m) in msgs.iter().enumerate() {
         let need = match m {
-            M::Send(coins) => {
+            M::Send(coins) | M::SendSelf(coins) => {
                 match r.allow.get(&caller) {
                     None => return Some(("no_allowance", format!("message {i}: bank send but the caller has no allowance"))),
                     Some((am, e)) => {
@@ -713,7 +768,7 @@ impl Cw1Model {
                 },
             ),
             Act::Freeze { by } => (*by, ExecuteMsg::Freeze {}),
-            Act::Inc { by, spender, denom, amt, exp } => (
+            Act::Inc { by, spender, denom, amt, exp, .. } => (
                 *by,
                 ExecuteMsg::IncreaseAllowance {
                     spender: cfg.addr(*spender),
@@ -724,7 +779,7 @@ impl Cw1Model {
                     expires: exp.to_opt(),
                 },
             ),
-            Act::Dec { by, spender, denom, amt, exp } => (
+            Act::Dec { by, spender, denom, amt, exp, .. } => (
                 *by,
                 ExecuteMsg::DecreaseAllowance {
                     spender: cfg.addr(*spender),
@@ -735,14 +790,14 @@ impl Cw1Model {
                     expires: exp.to_opt(),
                 },
             ),
-            Act::SetPerm { by, spender, flags } => (
+            Act::SetPerm { by, spender, flags, .. } => (
                 *by,
                 ExecuteMsg::SetPermissions {
                     spender: cfg.addr(*spender),
                     permissions: perms_of(*flags),
                 },
             ),
-            Act::Exec { by, msgs } => (
+            Act::Exec { by, msgs, .. } => (
                 *by,
                 ExecuteMsg::Execute {
                     msgs: msgs.iter().map(|m| to_cosmos(&cfg.actors, m)).collect(),
@@ -956,6 +1011,24 @@ impl Cw1Model {
         }
     }
 
+    /// the funds variants offered for a grant call by `by` naming coin (d, a)
+    fn grant_funds(&self, s: &State, by: u8, d: u8, a: u128) -> Vec<Vec<(u8, Amt)>> {
+        let mut out = vec![];
+        for gf in &self.cfg.grant_funds {
+            match gf {
+                GF::None => out.push(vec![]),
+                _ if s.r.is_admin(by) => {}
+                GF::Same => {
+                    if a > 0 {
+                        out.push(vec![(d, Amt(a))])
+                    }
+                }
+                GF::Other => out.push(vec![(1 - d.min(1), Amt(1))]),
+            }
+        }
+        out
+    }
+
     fn filter(&self, v: &mut Vec<Violation>) {
         let p = format!("{}.", self.cfg.prop);
         v.retain(|x| x.clause.starts_with(&p));
@@ -1009,6 +1082,11 @@ impl Model for Cw1Model {
             admins: cfg.init_admins.iter().map(|i| cfg.addr(*i)).collect(),
             mutable: cfg.init_mutable,
         };
+        for i in 0..cfg.actors.len() as u8 {
+            for d in DENOMS {
+                w.set_balance(&cfg.addr(i), d, 1_000);
+            }
+        }
         let out = w.instantiate(vt(cfg.kind), &proxy_addr(), &mc::addr("creator"), &to_json_vec(&msg).unwrap(), &[]);
         let mut v = vec![];
         if !out.ok() {
@@ -1072,13 +1150,24 @@ impl Model for Cw1Model {
                                     continue;
                                 }
                             }
-                            for &e in &cfg.inc_exps {
-                                out.push(Act::Inc { by, spender: tg.spender, denom: d, amt: Amt(a), exp: e });
+                            for (ei, &e) in cfg.inc_exps.iter().enumerate() {
+                                for f in self.grant_funds(s, by, d, a) {
+                                    // coins are attached with the first expiry of the alphabet only
+                                    if !f.is_empty() && ei > 0 {
+                                        continue;
+                                    }
+                                    out.push(Act::Inc { by, spender: tg.spender, denom: d, amt: Amt(a), exp: e, funds: f });
+                                }
                             }
                         }
                         for &a in &cfg.dec_amounts {
-                            for &e in &cfg.dec_exps {
-                                out.push(Act::Dec { by, spender: tg.spender, denom: d, amt: Amt(a), exp: e });
+                            for (ei, &e) in cfg.dec_exps.iter().enumerate() {
+                                for f in self.grant_funds(s, by, d, a) {
+                                    if !f.is_empty() && ei > 0 {
+                                        continue;
+                                    }
+                                    out.push(Act::Dec { by, spender: tg.spender, denom: d, amt: Amt(a), exp: e, funds: f });
+                                }
                             }
                         }
                     }
@@ -1086,8 +1175,13 @@ impl Model for Cw1Model {
             }
             for &by in &cfg.perm_callers {
                 for (sp, sets) in &cfg.perm_targets {
-                    for &f in sets {
-                        out.push(Act::SetPerm { by, spender: *sp, flags: f });
+                    for (fi, &f) in sets.iter().enumerate() {
+                        for funds in self.grant_funds(s, by, 0, 1) {
+                            if !funds.is_empty() && fi > 0 {
+                                continue;
+                            }
+                            out.push(Act::SetPerm { by, spender: *sp, flags: f, funds });
+                        }
                     }
                 }
             }
@@ -1111,7 +1205,11 @@ impl Model for Cw1Model {
                         }
                     }
                 }
-                out.push(Act::Exec { by, msgs: l.clone() });
+                for f in &cfg.exec_funds {
+                    if f.is_empty() || l.len() <= cfg.exec_funded_max_len {
+                        out.push(Act::Exec { by, msgs: l.clone(), funds: f.clone() });
+                    }
+                }
             }
         }
         for &sender in &cfg.probe_senders {
@@ -1241,7 +1339,14 @@ impl Model for Cw1Model {
         }
         let (by, msg) = self.exec_msg(a).unwrap();
         let mut w = s.w.clone();
-        let out = w.execute_json(&cfg.addr(by), &proxy, &msg, &[]);
+        let funds: Vec<Coin> = match a {
+            Act::Inc { funds, .. } | Act::Dec { funds, .. } | Act::SetPerm { funds, .. } | Act::Exec { funds, .. } => coins_of(funds),
+            _ => vec![],
+        };
+        let out = w.execute_json(&cfg.addr(by), &proxy, &msg, &funds);
+        // the bank is environment, not state: the contracts never look at balances, and every
+        // caller is re-funded after each call so that attaching funds stays possible forever
+        w.bank = s.w.bank.clone();
         let ok = out.ok();
         let store_same = w.contracts[&proxy].store == s.w.contracts[&proxy].store;
         if !ok {
@@ -1363,7 +1468,7 @@ impl Model for Cw1Model {
                 // the ledger: a non-admin's sends come out of its allowance, coin by coin
                 if cfg.kind == Kind::Subkeys && !by_admin {
                     for m in msgs {
-                        if let M::Send(coins) = m {
+                        if let M::Send(coins) | M::SendSelf(coins) = m {
                             for (d, amt) in coins {
                                 if let Some((am, _)) = r.allow.get_mut(&by) {
                                     let c = am.get(d).copied().unwrap_or(0);
